@@ -1705,6 +1705,7 @@ class Bmc:
             "cpc": [z3.BitVec("cpc%d_%d" % (k, i), self.pb) for i in range(T)],
             "creg": [[z3.BitVec("cr%d_%d_%d" % (k, i, j), self.vb) for j in range(self.ncreg)] for i in range(T)],
             "nxt": z3.BitVec("nxt%d" % k, self.vb),
+            "flt": z3.Bool("flt%d" % k),
         }
         return s
 
@@ -1801,6 +1802,7 @@ class Bmc:
                     err = z3.BoolVal(False)
                 else:
                     err = z3.And(z3.UGE(fk, z3.BitVecVal(lo, self.fb)), z3.ULE(fk, z3.BitVecVal(hi, self.fb)))
+                    upd["flt"] = z3.Or(upd["flt"], z3.And(g, err))
             elif op == "nd":
                 ndjump = ins.c
             if ndjump is not None:
@@ -1843,12 +1845,13 @@ class Bmc:
         init += [r == none for r in s0["mreg"]]
         init += [x == self.P(END) for x in s0["cpc"]] + [r == none for rr in s0["creg"] for r in rr]
         init.append(s0["nxt"] == 0)
+        init.append(z3.Not(s0["flt"]))
         s.add(*init)
         if fk is not None:
             s.add(z3.Or(fk == self.NOFAULT, z3.ULT(fk, z3.BitVecVal(self.nfault, self.fb))))
         for k in range(B):
             a, b = S[k], S[k + 1]
-            upd = {"ts": list(a["ts"]), "tg": list(a["tg"]), "fld": dict(a["fld"]), "own": dict(a["own"]), "cnt": dict(a["cnt"]), "nxt": a["nxt"]}
+            upd = {"ts": list(a["ts"]), "tg": list(a["tg"]), "fld": dict(a["fld"]), "own": dict(a["own"]), "cnt": dict(a["cnt"]), "nxt": a["nxt"], "flt": a["flt"]}
             w = who[k]
             enabled = []
             # main thread
@@ -1914,6 +1917,7 @@ class Bmc:
             for a_ in a["cnt"]:
                 s.add(b["cnt"][a_] == upd["cnt"][a_])
             s.add(b["nxt"] == upd["nxt"])
+            s.add(b["flt"] == upd["flt"])
         self.solver = s
         return s
 
@@ -1931,8 +1935,13 @@ class Bmc:
             return z3.BoolVal(False)
         return z3.And(self.main_left(k), z3.Not(self.any_running(k)), z3.Or(*[x == WAITING for x in a["ts"]]))
 
-    def any_violation(self):
-        return z3.Or(*[self.violation(k) for k in range(self.B + 1)])
+    def any_violation(self, faulted=None):
+        """faulted=True: ... after an injected fault was raised; False: ... on a fault-free run"""
+        if faulted is None:
+            return z3.Or(*[self.violation(k) for k in range(self.B + 1)])
+        if faulted:
+            return z3.Or(*[z3.And(self.violation(k), self.S[k]["flt"]) for k in range(self.B + 1)])
+        return z3.Or(*[z3.And(self.violation(k), z3.Not(self.S[k]["flt"])) for k in range(self.B + 1)])
 
     def overlap(self, seg):
         """some callback is RUNNING while the caller is inside top-level segment `seg` (after its first
